@@ -11,7 +11,7 @@ import dns.update
 import dns.rdatatype
 
 import msggen as g
-from lib import Err
+from lib import Err, normalize
 
 ID = "C03"
 COQ_IMPORTS = "From DV Require Import Model.MessageM."
@@ -389,6 +389,25 @@ def oracle(ctx, kind, case, out):
     #  carry the padding configuration, so that combination is outside the re-render clause)
     if w2 != w and not (pad != 0 and tsig is not None):
         fail("re-rendering the parsed message does not reproduce the octets", sig="rerender")
+    # --- rendering does not change the message object: the same object rendered twice gives the
+    #     same octets, and its flags and records are what they were
+    try:
+        mm = g.mk_message(am, pad=pad, request_payload=reqp)
+        before = g.message_abs(mm)
+        org = None if origin is None else g.N(origin)
+        wa = mm.to_wire(origin=org, max_size=max_size, prefer_truncation=bool(prefer), want_shuffle=False)
+        fl_after = int(mm.flags)
+        after = g.message_abs(mm)
+        wb = mm.to_wire(origin=org, max_size=max_size, prefer_truncation=bool(prefer), want_shuffle=False)
+    except g.Unmodelled:
+        return F
+    except Exception as e:  # noqa
+        fail("rendering the same message object twice raised " + type(e).__name__, sig="reuse")
+        return F
+    if fl_after != flags or normalize(after) != normalize(before):
+        fail("Message.to_wire changed the message object", sig="objstate")
+    if wa != w or wb != w:
+        fail("the same message object rendered twice gives different octets", sig="reuse")
     return F
 
 
